@@ -1,0 +1,12 @@
+//go:build !verif
+
+// Package verifhook provides named no-op call sites used by external
+// verification tooling. Without the "verif" build tag every function in this
+// package is an empty, inlinable stub and carries no state.
+package verifhook
+
+// Enabled reports whether the verification hooks are compiled in.
+const Enabled = false
+
+// At marks a named site. It does nothing in normal builds.
+func At(site string) {}
